@@ -131,6 +131,12 @@ type Flow struct {
 	Callback func(callee *types.Func, arg int) bool
 	// NoSummary suppresses the summary of particular callees.
 	NoSummary func(callee *types.Func) bool
+	// Implies adds derived labels: whenever label k is generated, Implies[k] are too.
+	// Used to express disjunctions ("A or B happened") in a must-analysis.
+	Implies map[string][]string
+	// BlockEntry returns labels (gen or '-' kill) applied on entry to a block; used
+	// for per-iteration facts (kill at the entry of a loop body).
+	BlockEntry func(fs *FuncSrc, b *cfg.Block) []string
 
 	summ    map[summKey]*summary
 	inprog  map[*FuncSrc]bool
@@ -183,8 +189,18 @@ type Result struct {
 	Sites    []*Site
 	Exit     fstate // must at normal exit (done ∪ deferred); top if no normal exit
 	Returns  []*ReturnSite
+	Loops    []*LoopEdge
 	siteIdx  map[siteKey]*Site
 	retDefer map[ast.Node]Set
+}
+
+// LoopEdge: the must-set on an edge that ends an iteration of a loop ("back": jumps to
+// the loop head / post statement; "break": leaves the loop from inside its body).
+type LoopEdge struct {
+	Fn     *FuncSrc
+	Loop   ast.Stmt
+	Kind   string
+	Before Set
 }
 
 type ReturnSite struct {
@@ -222,6 +238,7 @@ func (r *Result) OfPrefix(pfx string) []*Site {
 }
 
 type fnCFG struct {
+	inBody  map[ast.Stmt]map[int32]bool // loop -> blocks inside its body
 	g       *cfg.CFG
 	swOf    map[*ast.CaseClause]ast.Stmt // enclosing switch of a case clause
 	swallow bool                         // has a deferred recover that does not re-panic
@@ -368,7 +385,18 @@ func (fl *Flow) nodeLabels(fs *FuncSrc, n ast.Node) []string {
 	if fl.Node == nil {
 		return nil
 	}
-	return fl.Node(fs, n)
+	return fl.expand(fl.Node(fs, n))
+}
+
+func (fl *Flow) expand(ls []string) []string {
+	if fl.Implies == nil || len(ls) == 0 {
+		return ls
+	}
+	out := ls
+	for _, l := range ls {
+		out = append(out, fl.Implies[l]...)
+	}
+	return out
 }
 
 // atoms returns the events of node n in evaluation order.
@@ -607,7 +635,7 @@ func (fl *Flow) edgeLabels(fs *FuncSrc, c *fnCFG, b *cfg.Block, succ int) []stri
 			if sw, ok := c.swOf[cc].(*ast.SwitchStmt); ok && sw.Tag != nil {
 				cond = &ast.BinaryExpr{X: sw.Tag, Op: token.EQL, Y: cond, OpPos: cond.Pos()}
 				// with several case expressions the true edge of one is not "all"
-				return fl.Edge(fs, cond, truth)
+				return fl.expand(fl.Edge(fs, cond, truth))
 			}
 		}
 	}
@@ -624,7 +652,7 @@ func (fl *Flow) edgeLabels(fs *FuncSrc, c *fnCFG, b *cfg.Block, succ int) []stri
 	for _, f := range facts {
 		out = append(out, fl.Edge(fs, f.e, f.truth)...)
 	}
-	return out
+	return fl.expand(out)
 }
 
 // ---- forward
@@ -697,10 +725,27 @@ func (fl *Flow) forward(fs *FuncSrc, entry fstate, depth int, rec *recorder, kil
 						}
 					}
 				}
+				if record && rec != nil {
+					if k, loop := c.loopEdge(b, s); k != "" {
+						rec.res.Loops = append(rec.res.Loops, &LoopEdge{Fn: fs, Loop: loop, Kind: k, Before: out.done.clone()})
+					}
+				}
 				if ls := fl.blockLabels(fs, c, s); len(ls) > 0 {
 					out = out.clone()
 					for _, l := range ls {
 						out.done[l] = true
+					}
+				}
+				if fl.BlockEntry != nil {
+					if ls := fl.BlockEntry(fs, s); len(ls) > 0 {
+						out = out.clone()
+						for _, l := range ls {
+							if strings.HasPrefix(l, "-") {
+								delete(out.done, l[1:])
+							} else {
+								out.done[l] = true
+							}
+						}
 					}
 				}
 				m := in[s.Index].meet(out)
@@ -992,4 +1037,62 @@ func (s *Site) Follows(ls ...string) bool {
 		return true
 	}
 	return s.After.HasAny(ls...)
+}
+
+// loopEdge classifies the edge b->s with respect to the loops of the function.
+func (c *fnCFG) loopEdge(b, s *cfg.Block) (string, ast.Stmt) {
+	switch s.Kind {
+	case cfg.KindRangeLoop, cfg.KindForLoop, cfg.KindForPost:
+		if c.bodyOf(s.Stmt)[b.Index] {
+			if s.Kind == cfg.KindForLoop && b.Kind == cfg.KindForPost && b.Stmt == s.Stmt {
+				return "", nil // post -> head: the iteration already ended at the edge into post
+			}
+			return "back", s.Stmt
+		}
+	case cfg.KindRangeDone, cfg.KindForDone:
+		if c.bodyOf(s.Stmt)[b.Index] {
+			return "break", s.Stmt
+		}
+	}
+	return "", nil
+}
+
+// bodyOf returns the blocks reachable from the body block of loop without passing
+// through its head, post or done blocks.
+func (c *fnCFG) bodyOf(loop ast.Stmt) map[int32]bool {
+	if c.inBody == nil {
+		c.inBody = map[ast.Stmt]map[int32]bool{}
+	}
+	if m, ok := c.inBody[loop]; ok {
+		return m
+	}
+	m := map[int32]bool{}
+	c.inBody[loop] = m
+	var body *cfg.Block
+	for _, b := range c.g.Blocks {
+		if (b.Kind == cfg.KindRangeBody || b.Kind == cfg.KindForBody) && b.Stmt == loop {
+			body = b
+		}
+	}
+	if body == nil {
+		return m
+	}
+	var walk func(b *cfg.Block)
+	walk = func(b *cfg.Block) {
+		if m[b.Index] {
+			return
+		}
+		if b.Stmt == loop {
+			switch b.Kind {
+			case cfg.KindRangeLoop, cfg.KindForLoop, cfg.KindForPost, cfg.KindRangeDone, cfg.KindForDone:
+				return
+			}
+		}
+		m[b.Index] = true
+		for _, s := range b.Succs {
+			walk(s)
+		}
+	}
+	walk(body)
+	return m
 }
